@@ -41,6 +41,9 @@ CHECKS["C07"] = dict(design="4/C07", technique="TLA+ reference coercion function
 CHECKS["C04"] = dict(design="4/C04", technique="TLA+ denotational execution semantics (GqlExec: CollectFields / ExecuteSelectionSet / CompleteValue) over documents built by actions; TLC evaluates the reference for every document x world; replay on both executors with fresh and long-lived schema objects",
     text="spec/GqlExec.tla builds only valid, conflict-free documents by actions over a schema with objects, an interface, a union, an enum with internal values, a custom scalar, list and non-null wrappers and a fragment library, and defines the response (ordered keys, aliases, merged sub-selections per runtime type, type conditions, @skip/@include with a variable, visited-fragment tracking, null + one error at resolver-error / non-null positions); TLC checks Shape and ErrorsAtNulls on the model and prints the reference for every behaviour. Each is replayed on graphql_blocking and process_graphql_query, on a fresh schema object and on one long-lived schema object serving the shuffled batch; ordered data and error paths must equal the reference and a sample of responses passes the GqlResponse judge.",
     note="Worlds are a pairwise-covering family of 8; quick: builds <= 2 steps exhaustive + TLC simulation up to 5 steps; thorough: <= 3 exhaustive + simulation up to 7.")
+CHECKS["C20"] = dict(design="4/C20", technique="TLA+ edit algebra with expected classification and soundness predicates (GqlDiff), TLC-enumerated single and paired edits; replay into diff_schema on code-built schemas (two type orders), operation pool validated by the real validator",
+    text="spec/GqlDiff.tla defines elementary edits (add / remove / retype at every wrapper variant / default / deprecation / member / location / kind) of a base schema with the expected change classes and the predicates OutOk / InOk (checked reflexive and converse on the model); TLC enumerates every single edit and pairs touching different types. Each pair (old, new) is realised in code (enum internal values, reversed type order) and diffed: equal schemas report nothing, every edit is reported with an expected class naming the element (safe retypings may be silent), no BREAKING report implies no breaking edit by the predicates and every operation of a pool valid on the old schema stays valid on the new one, and the result does not depend on the order of types.",
+    note="One base schema; 'naming the element' = message contains the element name.")
 NOT_YET = {
 }
 
